@@ -386,3 +386,46 @@ func VerifC02AssignAncestor() {
 	verifAssert(verifEqStr(got, want), "C02/put-get-of-an-ancestor's-value "+label)
 	verifCover("C02/assign-ancestor/end")
 }
+
+// VerifC02UpdateAnchored: `p op= e` gives the match m the value `m op e` — also when m carries an anchor that aliases
+// elsewhere in the document refer to: the compound form leaves the same document as `p = p op e` (anchors, aliases
+// and all), the anchor stays on the node and every alias of it reads the new value.
+//   a: &x {c: V1}   b: *x   s: &y V2   t: *y
+func VerifC02UpdateAnchored() {
+	v1, v2 := verifStrN("v1", 1, "03"), verifStrN("v2", 1, "03")
+	w := verifStrN("w", 1, "03")
+	build := func() *CandidateNode {
+		x := vMap(vStr("c"), vInt(v1))
+		x.Anchor = "x"
+		y := vInt(v2)
+		y.Anchor = "y"
+		return vDoc(vMap(vStr("a"), x, vStr("b"), &yaml.Node{Kind: yaml.AliasNode, Value: "x", Alias: x}, vStr("s"), y, vStr("t"), &yaml.Node{Kind: yaml.AliasNode, Value: "y", Alias: y}))
+	}
+	forms := [][2]string{{".a *= {\"d\": 7770003}", ".a = .a * {\"d\": 7770003}"}, {".a += {\"d\": 7770003}", ".a = .a + {\"d\": 7770003}"}, {".a *= {\"c\": 7770003}", ".a = .a * {\"c\": 7770003}"},
+		{".s += 7770003", ".s = .s + 7770003"}, {".s -= 7770003", ".s = .s - 7770003"}, {".s *= 7770003", ".s = .s * 7770003"}, {".a |= . + {\"d\": 7770003}", ".a = .a + {\"d\": 7770003}"}, {".a *=n {\"d\": 7770003}", ".a = .a *n {\"d\": 7770003}"}}
+	fi := verifChoice("form", len(forms))
+	label := "form=" + forms[fi][0]
+	run := func(text string) (*CandidateNode, bool) {
+		e := vParse(text)
+		vSubst(e, "7770003", "!!int", w)
+		d := build()
+		res, err := vEval(e, d)
+		if err != nil || res.Len() != 1 {
+			return nil, false
+		}
+		return d, true
+	}
+	d1, ok1 := run(forms[fi][0])
+	d2, ok2 := run(forms[fi][1])
+	verifAssert(ok1 && ok2, "C02/update-error anchored "+label)
+	if !ok1 || !ok2 {
+		return
+	}
+	verifAssert(verifEqStr(vDumpFull(d1), vDumpFull(d2)), "C02/compound-assignment-differs-from-its-expansion anchored "+label)
+	target, name := d1.Content[1], "x"
+	if fi >= 3 && fi <= 5 {
+		target, name = d1.Content[5], "y"
+	}
+	verifAssert(target.Anchor == name, "C02/compound-assignment-dropped-the-anchor-of-its-target "+label)
+	verifCover("C02/anchored/end")
+}
